@@ -75,23 +75,8 @@ def make_backend(name, big_endian):
 
 
 def plan(quick):
-    p = []
-    for w in T.SMALL:
-        p.append(("z3", False, "d1", (T.SMALL, w), 4))
-    if quick:
-        for w in (1, 2):
-            p += [("z3", False, "d2", ((1, 2), w, "one", 2, "1c", k, 4), 1) for k in range(4)]
-        wide, data = WIDE_QUICK, DATA_QUICK
-    else:
-        for w in (1, 2, 3):
-            p += [("z3", False, "d2", ((1, 2, 3), w, "full", 2, "3c", k, 32), 1) for k in range(32)]
-        p += [("z3", False, "d2", (T.SMALL, 4, "core", 2, "3c", k, 32), 1) for k in range(32)]
-        wide, data = WIDE_THOROUGH, DATA_THOROUGH
-    for w in wide:
-        p.append(("z3", False, "wide", (w, MAXW, not quick), 2 if quick else 8))
-    for be in (False, True):
-        p.append(("z3", be, "mem", (PTR_WIDTHS, data), 8))
-    return p
+    return T.standard_plan("z3", quick, WIDE_QUICK if quick else WIDE_THOROUGH, DATA_QUICK if quick else DATA_THOROUGH,
+                           PTR_WIDTHS, MAXW, (False, True))
 
 
 def run(ctx):
